@@ -1,4 +1,6 @@
 """Pull-based components for merging multiple inputs into a single output"""
+import copy
+
 from finam.interfaces import ComponentStatus
 
 from ..data.tools import compatible_units, strip_time
@@ -151,4 +153,5 @@ class WeightedSum(Component):
             self._out_data = result
             self._last_update = time
 
-        return self._out_data
+        # hand out a copy: outputs refuse data sharing memory with the last one
+        return copy.copy(self._out_data)
